@@ -59,6 +59,8 @@ def scene_cases(rng, n):
         cases.append(("scene", [rng.getrandbits(40), w, h, i % 7]))
     for i in range(max(2, n // 40)):    # pattern sources with more than 32767 columns / rows
         cases.append(("scene", [rng.getrandbits(40), 24, 24, 8]))
+    for i in range(max(2, n // 40)):    # gradients with more than 256 stops (the stop index leaves 8 bits)
+        cases.append(("scene", [rng.getrandbits(40), 700, 2, 9]))
     return cases
 
 
